@@ -1020,7 +1020,7 @@ fn main() {
         run_graph(&g, "wide_layers", &[1, 2], &[0], &mut rng, &mut st, &mut cw);
     }
     // ---- 5. random graphs and v0 tables
-    let n_random = if thorough { 6000 } else { 560 };
+    let n_random = if thorough { 8000 } else { 900 };
     for i in 0..n_random {
         let g = random_graph(&mut rng);
         let mut gids: Vec<u32> = g.base.iter().flatten().map(|(g, _)| *g as u32).collect();
